@@ -30,6 +30,41 @@ def run(ctx):
     c07.r4_iteration(ctx)       # measures_count = len(index): the `to` of the last pair
     ctx.alias = {}
     f = ctx.prog.func(f'{N.GENERIC}.Generic.concat')
+    # concat keeps nothing between calls: among the writes the effect analysis finds below it, none goes to a class attribute or a
+    # module-level object (the node counter Node.NextID excepted) - a remembered previous call would make the pairs depend on history
+    from ..effects import Effects
+    eng = Effects(ctx.prog)
+    eng.analyse([f])
+    # (decided on the syntactic target of every store in the reachable functions: `cls.x = ..`, `ClassName.x = ..`, `cls.x[k] = ..`,
+    # a `global` statement - the alias analysis is not used for this rule)
+    kept = []
+    reach = [g for g in eng.reachable(f) if not g.module.generated]
+    for g in reach:
+        for n in walk_local(g.node):
+            if isinstance(n, ast.Global):
+                kept.append((g, n, f'global {", ".join(n.names)}'))
+            tgs = []
+            if isinstance(n, ast.Assign):
+                tgs = n.targets
+            elif isinstance(n, (ast.AugAssign, ast.AnnAssign)):
+                tgs = [n.target]
+            for t in tgs:
+                base = t
+                while isinstance(base, ast.Subscript):
+                    base = base.value
+                if isinstance(base, ast.Attribute) and isinstance(base.value, ast.Name):
+                    owner = base.value.id
+                    is_cls = (owner == 'cls' and g.kind == 'classmethod') or (ctx.prog.resolve(g.module, owner) is not None
+                                                                              and ctx.prog.resolve(g.module, owner).kind == 'class'
+                                                                              and owner not in g.all_params)
+                    if is_cls and not (owner == 'Node' and base.attr == 'NextID'):
+                        kept.append((g, n, src(t)))
+    for g, n, what in kept[:3]:
+        ctx.violation('R3', f'{g.module.relpath}:{n.lineno}', f.qualname, f'state-between-calls:{what[:50]}',
+                      f'{g.qualname} stores `{what}`: state of a class / module that outlives the call and that a later concat reads - the '
+                      f'pairs of a call depend on the calls made before it')
+    if not kept:
+        ctx.holds('R3', f.loc, f.qualname, f'no store to a class attribute or module global in the {len(reach)} functions below concat (Node.NextID excepted)')
     contents, sepn = f.params[1:3]
     body = docstring_free(f.body)
     loops = [n for n in body if isinstance(n, ast.For) and src(n.iter) == contents]
